@@ -25,12 +25,14 @@ from .. import bus, cover, gen, world
 
 LEVEL = 'exploration'
 JOBS = {'quick': 4, 'thorough': 16}
-REQUIRED_MONITORS = ('optimiser_boundary', 'residue_guesser', 'protein_guesser', 'manager_routing', 'manager_rejection')
+REQUIRED_MONITORS = ('optimiser_boundary', 'residue_guesser', 'protein_guesser', 'manager_routing', 'manager_rejection',
+                     'manager_guessed_restraints')
 REQUIRED_CLASSES = ('sizes:start-smaller', 'sizes:start-larger', 'sizes:tie', 'hydrogens:ignored', 'hydrogens:kept',
                     'pairs:on-hydrogen', 'pairs:duplicates', 'guess:mismatching-residue-count', 'routing:partial-dicts',
                     'routing:preparsed-own-order', 'call:repeated-same-list-object', 'end-molecule:attached-by-hand-named-like-another-species',
                     'reject:unknown-species', 'reject:malformed-pair', 'reject:index-out-of-range', 'reject:bad-deformation',
-                    'reject:bad-hydrogen-flag')
+                    'reject:bad-hydrogen-flag', 'manager-guess:more-than-three-residues', 'manager-guess:start-smaller',
+                    'manager-guess:start-larger', 'manager-guess:three-residues-or-fewer')
 RULE = ('(a) molecule pairs (either one larger or tie, random hydrogens in both) x restraint lists (empty, partial, duplicates, '
         'pairs on hydrogens) x ignore_hydrogens; (b) every (n1, n2) in 1..40 x 1..40 for the per-residue splitter [enumerated '
         'completely], random multi-residue molecules for the protein guesser; (c) generated 2-4 species systems x per-species '
@@ -72,7 +74,7 @@ def cases(ctx):
         yield {'kind': 'splitter', 'n1': n1}
     for b in range(10 if ctx.tier == 'quick' else 3000):
         yield {'kind': 'protein', 'batch': b}
-    for i in range(12 if ctx.tier == 'quick' else 5000):
+    for i in range(30 if ctx.tier == 'quick' else 5000):
         yield {'kind': 'manager', 'i': i}
 
 
@@ -349,7 +351,10 @@ def run_manager(ctx, case):
     i = case['i']
     rng = ctx.rng('manager', i)
     root = os.path.join(_tmp['dir'], f'w{os.getpid()}_{i}')
-    w = world.make_world(rng, root, nspecies=int(rng.integers(2, 5)), ninst=(1, 4), small_prob=0.1, multi_res_prob=0.2)
+    long_chains = (i % 3 == 2)           # species of up to six residues: the manager guesses restraints for more than three
+    w = world.make_world(rng, root, nspecies=int(rng.integers(2, 5)), ninst=(1, 4), small_prob=0.1,
+                         multi_res_prob=0.7 if long_chains else 0.2, multi_res_max=6 if long_chains else 4,
+                         coarsen=long_chains and i % 2 == 1)
     log = []
     real = Alignment.__dict__['align_molecules']
 
@@ -375,6 +380,37 @@ def run_manager(ctx, case):
                 man.add_end_molecule(Molecule.from_files(f['gro_end'], f['top_end']))
         complete = sorted(w['end_for'])
         sizes = {n: (len(w['species'][n]['atoms']), len(w['end_species'][n]['atoms'])) for n in complete}
+        # restraints prepared through the manager with the guesser switched on: guessed for species of more than three
+        # residues (first index the start molecule, second the end molecule - what align_molecules is then given with
+        # parse_restrictions=False), the caller's own for the others
+        for given in (None, {}, {complete[0]: [(0, 0)]}):
+            try:
+                plain = man.parse_restrictions(given)
+                guessed = man.parse_restrictions(given, guess_proteins=True)
+            except Exception as exc:  # noqa
+                ctx.violation(f'valid-options-rejected:{type(exc).__name__}', f'parse_restrictions({given}, guess_proteins=True): {exc}'[:300])
+                break
+            ctx.monitor('manager_guessed_restraints')
+            ctx.count('evaluations')
+            for n in complete:
+                s1 = w['species'][n]['sizes']
+                s2 = w['end_species'][n]['sizes']
+                wit0 = {'species': n, 'start_residue_sizes': s1, 'end_residue_sizes': s2, 'given': given}
+                if len(s1) > 3:
+                    ctx.hit('manager-guess:more-than-three-residues')
+                    if sum(s1) < sum(s2):
+                        ctx.hit('manager-guess:start-smaller')
+                    elif sum(s1) > sum(s2):
+                        ctx.hit('manager-guess:start-larger')
+                    bad = check_pairs([tuple(p) for p in (guessed.get(n) or [])], s1, s2)
+                    if bad:
+                        ctx.violation('manager-guessed-restraints-wrong', f'{n} (residues {s1} -> {s2}): {bad}',
+                                      witness=dict(wit0, pairs=[tuple(int(x) for x in p) for p in (guessed.get(n) or [])][:40]))
+                else:
+                    ctx.hit('manager-guess:three-residues-or-fewer')
+                    a, b = guessed.get(n), plain.get(n)
+                    if (None if not a else [tuple(p) for p in a]) != (None if not b else [tuple(p) for p in b]):
+                        ctx.violation('manager-guess-changes-restraints-of-short-species', f'{n}: {a} with the guesser on, {b} with it off', witness=wit0)
         with bus.patched(Alignment, 'align_molecules', recorder):
             for rep in range(12):
                 del log[:]
